@@ -133,3 +133,84 @@ package ast
 //@     invariant [prods] len(prods) == len(alts1) && arr(prods) >= old(alloc())
 //@     invariant [so-far] all(k, 0, range_i1, prods[k] != nil && prods[k] >= old(alloc()) && prods[k] < alloc() && prods[k].Body == alts1[k] && prods[k].Id == pid)
 //@
+//@
+//@ # ---- C14: a grammar that uses an undefined production, or has an alternative without symbols, is refused ----
+//@ package fmt
+//@ # the text of a quoted string literal symbol: the rendering is trusted to start with a double quote
+//@ specfun QuotedF(s string) string
+//@ func fmt.Errorf(format, a)
+//@   trusted
+//@   ensures [nonnil] result != nil
+//@   assigns nothing
+//@ package unicode
+//@ specfun IsUpperF(r int) bool
+//@ func unicode.IsUpper(r)
+//@   trusted
+//@   ensures [fun] result == IsUpperF(r)
+//@   assigns nothing
+//@ package utf8
+//@ specfun FirstRuneF(s string) int
+//@ func utf8.DecodeRuneInString(s) (r, size)
+//@   trusted
+//@   ensures [fun] r == FirstRuneF(s)
+//@   assigns nothing
+//@ package ast
+//@ axiom [quoted] forallS(s, len(QuotedF(s)) >= 2 && QuotedF(s)[0] == 34)
+//@ spec SymText(s ast.SyntaxSymbol) string = ite(typeis(s, ast.SyntaxEmpty), "empty", ite(typeis(s, ast.SyntaxError), "error", ite(typeis(s, ast.SyntaxProdId), string(as(s, ast.SyntaxProdId)),
+//@   | ite(typeis(s, ast.SyntaxStringLit), QuotedF(string(as(s, ast.SyntaxStringLit))), string(as(s, ast.SyntaxTokId))))))
+//@ func (SyntaxEmpty).String
+//@   prop C14
+//@   ensures [fun] result == SymText(iface(this))
+//@   assigns nothing
+//@ func (SyntaxError).String
+//@   prop C14
+//@   ensures [fun] result == SymText(iface(this))
+//@   assigns nothing
+//@ func (SyntaxProdId).String
+//@   prop C14
+//@   ensures [fun] result == SymText(iface(this))
+//@   assigns nothing
+//@ func (SyntaxTokId).String
+//@   prop C14
+//@   ensures [fun] result == SymText(iface(this))
+//@   assigns nothing
+//@ func (SyntaxStringLit).String
+//@   prop C14
+//@   trusted
+//@   ensures [fun] result == SymText(iface(this))
+//@   assigns nothing
+//@
+//@ spec nonLit(t string) bool = t[0] != 34
+//@ opaque spec prodUses(p *ast.SyntaxProd, t string) bool = some(j, 0, len(p.Body.Symbols), nonLit(SymText(p.Body.Symbols[j])) && SymText(p.Body.Symbols[j]) == t)
+//@ spec definedIn(g *ast.Grammar, t string) bool = some(k, 0, len(g.LexPart.TokDefsList), g.LexPart.TokDefsList[k].id == t) || some(i, 0, len(g.SyntaxPart.ProdList), g.SyntaxPart.ProdList[i].Id == t)
+//@ spec undefinedProd(g *ast.Grammar, t string) bool = !definedIn(g, t) && t != "empty" && t != "error" && IsUpperF(FirstRuneF(t))
+//@ spec usedIn(g *ast.Grammar, t string) bool = some(i, 0, len(g.SyntaxPart.ProdList), prodUses(g.SyntaxPart.ProdList[i], t))
+//@ spec cProdWF(pr *ast.SyntaxProd) bool = pr != nil && pr.Body != nil && all(i, 0, len(pr.Body.Symbols), isSym(pr.Body.Symbols[i]) && len(SymText(pr.Body.Symbols[i])) > 0)
+//@
+//@ func consistent
+//@   prop C14
+//@   requires [init] errUndefined != nil
+//@   requires [grammar] g != nil && g.LexPart != nil && all(k, 0, len(g.LexPart.TokDefsList), g.LexPart.TokDefsList[k] != nil) && imp(g.SyntaxPart != nil, all(p, 0, len(g.SyntaxPart.ProdList), cProdWF(g.SyntaxPart.ProdList[p])))
+//@   ensures [empty-alternative] imp(g.SyntaxPart != nil && some(i, 0, len(g.SyntaxPart.ProdList), len(g.SyntaxPart.ProdList[i].Body.Symbols) == 0), err != nil)
+//@   ensures [undefined] imp(g.SyntaxPart != nil && existsS(t, usedIn(g, t) && undefinedProd(g, t)), err != nil)
+//@   ensures [only] imp(err != nil, g.SyntaxPart != nil && (some(i, 0, len(g.SyntaxPart.ProdList), len(g.SyntaxPart.ProdList[i].Body.Symbols) == 0) || existsS(t, usedIn(g, t) && undefinedProd(g, t))))
+//@   assigns nothing
+//@   loop 1
+//@     invariant [fresh] defs >= old(alloc()) && used >= old(alloc()) && defs != nil && used != nil
+//@     invariant [defs] forallS(t, has(defs, t) == some(k, 0, range_i1, g.LexPart.TokDefsList[k].id == t))
+//@     invariant [used] forallS(t, !has(used, t))
+//@   loop 2
+//@     invariant [fresh] defs >= old(alloc()) && used >= old(alloc()) && defs != nil && used != nil
+//@     invariant [defs] forallS(t, has(defs, t) == (some(k, 0, len(g.LexPart.TokDefsList), g.LexPart.TokDefsList[k].id == t) || some(i, 0, range_i2, g.SyntaxPart.ProdList[i].Id == t)))
+//@     invariant [nonempty] all(i, 0, range_i2, len(g.SyntaxPart.ProdList[i].Body.Symbols) > 0)
+//@     invariant [used] forallS(t, has(used, t) == some(i, 0, range_i2, prodUses(g.SyntaxPart.ProdList[i], t)))
+//@     invariant [fresh-lists] forallS(t, imp(has(used, t), cap(used[t]) == 0 || arr(used[t]) >= old(alloc())))
+//@     step [now] reveal(prodUses) forallS(t, has(used, t) == (head(has(used, t)) || prodUses(g.SyntaxPart.ProdList[range_i2], t)))
+//@   loop 3
+//@     invariant [fresh] defs >= old(alloc()) && used >= old(alloc()) && defs != nil && used != nil
+//@     invariant [fresh-lists] forallS(t, imp(has(used, t), cap(used[t]) == 0 || arr(used[t]) >= old(alloc())))
+//@     invariant [used] forallS(t, has(used, t) == (entry(3, has(used, t)) || some(j, 0, range_i3, nonLit(SymText(prod.Body.Symbols[j])) && SymText(prod.Body.Symbols[j]) == t)))
+//@   loop 4
+//@     invariant [err] err == nil
+//@   loop 5
+//@     invariant [err] (err != nil) == existsS(t, visited(5, t) && undefinedProd(g, t))
